@@ -112,6 +112,7 @@ PROPS = {
  "C12": {
   "props_modules": ["Ps3.Props.C12"],
   "race_thorough": True,
+  "race_always": True,
   "streams": [{"name": "c12", "bad_obs": BAD_OBS}],
   "rule": "rounds of 2/4/8 (thorough: up to 64) clients running random sessions CONCURRENTLY against one server (shared plain files, the same generated image, an encrypted image, private writable subtrees), GOMAXPROCS cycled through 1,2,4,16; every client's full response stream is compared with the sequential model's prediction for that client alone; handle ledger after all clients finished. thorough: the harness and the server code are built with -race and any race report is a violation",
   "assumptions": ["data-race freedom in Go's memory model and the scheduler are runtime behaviour: observed (race detector in the thorough tier), not proved",
